@@ -114,11 +114,16 @@ def build_goto(ob, scratch):
         return gb, ""
     lock = gb + ".lock"
     # simple in-process dedup is done by the caller (builds are submitted once per key)
-    cmd = ["goto-cc"] + CC_FLAGS + ["-D" + d for d in ob.defs] + ob.cc + ["-o", gb + ".tmp", ob.hpath()] + ob.extra_src
+    import threading
+    tmp = "%s.%d.%d.tmp" % (gb, os.getpid(), threading.get_ident())  # several obligations may build the same key concurrently
+    cmd = ["goto-cc"] + CC_FLAGS + ["-D" + d for d in ob.defs] + ob.cc + ["-o", tmp, ob.hpath()] + ob.extra_src
     rc, out, _ = run(cmd, 300, 8)
     if rc != 0:
         return None, "goto-cc failed (%s):\n%s" % (rc, out[-3000:])
-    os.rename(gb + ".tmp", gb)
+    try:
+        os.rename(tmp, gb)
+    except OSError:
+        pass
     return gb, ""
 
 
@@ -196,14 +201,19 @@ def build_native(ob, scratch):
     exe = os.path.join(scratch, key + ".replay")
     if os.path.exists(exe):
         return exe, ""
+    import threading
+    exe_tmp = "%s.%d.%d.tmp" % (exe, os.getpid(), threading.get_ident())
     cmd = ["gcc", "-g", "-O0", "-w", "-fsanitize=address,undefined", "-fno-sanitize-recover=undefined",
            "-fno-sanitize=shift-base,signed-integer-overflow,alignment,pointer-overflow",  # MIR relies on wrap/arith shifts; see DESIGN
            "-DREPLAY"] + (["-DH_ENTRY=" + ob.entry] if ob.entry else []) + CC_FLAGS + ["-D" + d for d in ob.defs] + ob.cc + ob.native_cc + \
-          ["-o", exe + ".tmp", ob.hpath()] + ob.extra_src + ["-lm", "-ldl", "-lpthread"]
+          ["-o", exe_tmp, ob.hpath()] + ob.extra_src + ["-lm", "-ldl", "-lpthread"]
     rc, out, _ = run(cmd, 600, 16)
     if rc != 0:
         return None, "native replay build failed:\n" + out[-3000:]
-    os.rename(exe + ".tmp", exe)
+    try:
+        os.rename(exe_tmp, exe)
+    except OSError:
+        pass
     return exe, ""
 
 
